@@ -695,6 +695,17 @@ def describe(cell):
     return c
 
 
+def corpus_cells():
+    """corpus/C20/*.json: recorded cells (the known findings and regression cases), always run first."""
+    out = []
+    d = vlib.VERIF / "corpus" / "C20"
+    for f in sorted(d.glob("*.json")) if d.exists() else []:
+        rep = json.loads(f.read_text())
+        if rep.get("kind") in RUNNERS and "cell" in rep:
+            out.append(dict(rep["cell"]))
+    return out
+
+
 def run_cells(ctx, env, cells, report=True):
     """Run real cells; returns (cases for the correspondence, failures [(cell, result, what, key)])."""
     cases, fails = [], []
@@ -749,7 +760,9 @@ def run(ctx):
         ctx.extra["fake_group_db_in_private_mount_namespace"] = bool(env["fake_text"])
         ctx.extra["system_users_with_supplementary_groups"] = sorted(n for n in env["db"][False].unames if env["db"][False].memberships(n))
         quick = ctx.quick()
-        cells = identity_cells(env, ctx.rng, 150 if quick else 6000)
+        cells = corpus_cells()
+        ctx.extra["corpus_cells"] = len(cells)
+        cells += identity_cells(env, ctx.rng, 150 if quick else 6000)
         cells += worker_cells(env, L.WORKER_CLASSES, ctx.rng, 8 if quick else 400)
         cells += socket_cells(env, ctx.rng, 10 if quick else 300)
         t = time.time()
@@ -848,7 +861,7 @@ def replay(rep):
             for s in steps:
                 print(s[2], "->", s[1])
             print("oracle failures:", fails)
-            return 1 if any(k is None for _, k in fails) or fails else 0
+            return 1 if fails else 0
         cell = rep["cell"]
         judge = RUNNERS[cell["kind"]][4]
         r = run_one(env, cell)
